@@ -23,6 +23,8 @@ ClassesAll == {
   C("td_ns", 64, FALSE, "NAT", FALSE, TRUE, FALSE),   C("td_us", 64, FALSE, "NAT", FALSE, TRUE, FALSE),
   C("td_ms", 64, FALSE, "NAT", FALSE, TRUE, FALSE),   C("td_s", 64, FALSE, "NAT", FALSE, TRUE, FALSE),
   C("cat_str", 8, FALSE, "CAT", TRUE, TRUE, FALSE),  C("cat_int", 8, FALSE, "CAT", TRUE, TRUE, FALSE),
+  \* a categorical with more than 127 categories (most of them unused): codes of two bytes, index pages of width 16
+  C("cat_str_w", 16, FALSE, "CAT", TRUE, TRUE, FALSE),
   \* ordered categoricals whose declared category order differs from the order of the label values
   C("cat_str_ord", 8, FALSE, "CAT", TRUE, TRUE, FALSE),  C("cat_int_ord", 8, FALSE, "CAT", TRUE, TRUE, FALSE),
   C("Int8", 32, FALSE, "MASK", FALSE, TRUE, TRUE),   C("Int32", 32, FALSE, "MASK", FALSE, TRUE, TRUE),
@@ -30,9 +32,9 @@ ClassesAll == {
   C("UInt64", 64, FALSE, "MASK", FALSE, TRUE, TRUE), C("boolean", 1, FALSE, "MASK", FALSE, TRUE, FALSE) }
 
 ClassesCore == {c \in ClassesAll : c.name \in {"bool", "int8", "int64", "uint64", "float64", "obj_str", "obj_str_e", "dt_ns",
-                                                 "dt_tz", "cat_str", "cat_int_ord", "Int64", "boolean"}}
+                                                 "dt_tz", "cat_str", "cat_str_w", "cat_int_ord", "Int64", "boolean"}}
 (* row counts around 64 and 8192, where the framing of the level block changes, on a reduced option product *)
-ClassesBig == {c \in ClassesAll : c.name \in {"int64", "float64", "obj_str", "cat_str", "Int64", "bool", "boolean", "dt_s"}}
+ClassesBig == {c \in ClassesAll : c.name \in {"int64", "float64", "obj_str", "cat_str", "cat_str_w", "Int64", "bool", "boolean", "dt_s"}}
 RowsBig == {63, 64, 65, 100}
 RowsHuge == {8191, 8192, 8193}
 PatsBig == {"none", "last"}
